@@ -22,6 +22,9 @@ for d in sorted(glob.glob(VERIF + "/seeded/C*-*")):
         if not applies:
             applies = subprocess.run(["git", "-C", wt, "apply", "-3", d + "/patch.diff"], capture_output=True).returncode == 0
             how = "applies with 3-way merge"
+        if not applies and os.path.exists(d + "/patch-adapted-to-current-tree.diff"):
+            applies = subprocess.run(["git", "-C", wt, "apply", d + "/patch-adapted-to-current-tree.diff"], capture_output=True).returncode == 0
+            how = "patch-adapted-to-current-tree.diff (same edit re-made on the current tree)"
         meta_p = d + "/meta.json"
         meta = json.load(open(meta_p)) if os.path.exists(meta_p) else {"property": prop, "variant": name.split("-")[1]}
         if not applies:
@@ -40,7 +43,15 @@ for d in sorted(glob.glob(VERIF + "/seeded/C*-*")):
             meta["detected_by"] = {"check": prop, "exit": out.returncode, "obligations": keys, "how_applied": how} if out.returncode == 1 else None
             if out.returncode not in (0, 1):
                 meta["detected_by"] = {"check": prop, "exit": out.returncode, "error": out.stdout[-300:]}
-            rows.append((name, "DETECTED " + "; ".join(keys)[:200] if out.returncode == 1 else "not detected (rc=%d)" % out.returncode))
+            other = {}
+            for q in meta.get("also_run", []):
+                o2 = subprocess.run([VERIF + "/bin/verifcheck", "-property", q, "-repo", wt, "-verif", VERIF, "-no-evidence"], capture_output=True, text=True, env=env)
+                l2 = o2.stdout.splitlines()
+                ks = [l2[i-1].strip()[:160] for i, l in enumerate(l2) if l.startswith("VIOLATION") and i > 0]
+                other[q] = {"exit": o2.returncode, "obligations": ks}
+            if other:
+                meta["detected_by_other_checks"] = other
+            rows.append((name, "DETECTED " + "; ".join(keys)[:200] if out.returncode == 1 else "not detected (rc=%d)" % out.returncode + (" ; other checks: " + ", ".join(q for q in other if other[q]["exit"] == 1) if other else "")))
         json.dump(meta, open(meta_p, "w"), indent=1)
     finally:
         shutil.rmtree(wt, ignore_errors=True)
